@@ -27,6 +27,31 @@ fn main() {
         if v["engine"].as_str() == Some("B") {
             std::process::exit(engb::replay(&v));
         }
+        if v["engine"].as_str() == Some("D") {
+            // re-run the saved libFuzzer input against the current tree
+            let bytes: Vec<u8> = v["artifact_bytes"].as_array().map(|a| a.iter().map(|x| x.as_u64().unwrap_or(0) as u8).collect()).unwrap_or_default();
+            let dir = engd::fuzz_dir("c11");
+            let _ = std::fs::create_dir_all(&dir);
+            let f = dir.join("replay_input");
+            std::fs::write(&f, bytes).unwrap();
+            let st = std::process::Command::new("cargo")
+                .current_dir(util::verif("fuzz"))
+                .args(["+nightly", "fuzz", "run", "-s", "none", "rangemap_ops"])
+                .arg(&f)
+                .env("CARGO_NET_OFFLINE", "true")
+                .status();
+            match st {
+                Ok(s) if s.success() => {
+                    println!("replay: no violation");
+                    std::process::exit(0);
+                }
+                Ok(_) => {
+                    println!("VIOLATION property=C11 replay=<given file>");
+                    std::process::exit(1);
+                }
+                Err(e) => infra(&format!("cannot run cargo fuzz: {}", e)),
+            }
+        }
         if v["engine"].as_str() == Some("C") {
             std::process::exit(engc::replay(&v));
         }
@@ -96,6 +121,17 @@ fn run_c11(tier: Tier) -> i32 {
     ev.set("rule", json!(format!("part (a): operation sequences on lexgen's RangeMap<BTreeSet<u8>> (compiled unchanged via #[path]) against a point-wise model — EXHAUSTIVELY every sequence of up to two inserts followed by one insert / insert_ranges / remove_ranges (lists of 1-2 sorted disjoint ranges) over the universe 0..=5 (quick) or 0..=7 (thorough), and random sequences of up to 12 operations over the whole scalar range with end points re-anchored on earlier boundaries +-1, 0, the surrogate-gap edges and char::MAX, shrunk by proptest; after EVERY operation: pieces sorted, disjoint, start <= end <= char::MAX, values non-empty, and point-wise equal to the model at every point (small universe) or at every boundary +-1 (large). Non-trivial = the operation overlapped at least two existing pieces or removed a range equal to a piece. {}", rule_b)));
     ev.set("exhaustive", json!(true));
     ev.set("exhaustive_note", json!("exhaustive for part (a)'s bounded family only"));
+    let mut n_a = n_a;
+    if tier == Tier::Thorough && n_a == 0 {
+        let (note, execs, crash) = engd::rangemap_stage(600_000, 900);
+        ev.set("coverage_guided_stage", json!({"target": "rangemap_ops", "note": note, "executions": execs, "artifact": crash.is_some()}));
+        if let Some((msg, bytes)) = crash {
+            let body = json!({"property": "C11", "engine": "D", "part": "rangemap_ops", "seed": util::seed() as i64, "reason": msg, "artifact_bytes": bytes});
+            let path = util::write_replay("C11", &body);
+            util::report_violation("C11", &path, &pipe::trunc(&msg, 400));
+            n_a += 1;
+        }
+    }
     ev.violations += n_a as i64;
     ev.write();
     if n_a > 0 || code_b == 1 {
